@@ -66,7 +66,7 @@ def C_idx_find(repo, clause):
                       slot="home-block:missing",
                       positive=bool(st) and bool(st[0].args) and not any(isinstance(x, ast.Subscript) for x in ast.walk(expand(fnobj, st[0].args[0])))))
     if not any(not o.ok for o in obs):
-        floor("Cidx", "typed index obligations in the search", len(obs), 20)
+        floor("Cidx", "typed index obligations in the search", len(obs), 14)
         for need, n in (("fold idx%len", 2), ("subscript", 12), ("mat-subscript", 3), ("map-lookup", 1), ("home-block", 1)):
             if kinds.get(need, 0) < n:
                 raise AnalysisError("C-idx: only %d `%s` obligations typed in the search (floor %d): coverage lost" % (kinds.get(need, 0), need, n))
@@ -139,7 +139,7 @@ def C_idx_replace(repo, clause):
         k = o.slot.split(":")[0]
         kinds[k] = kinds.get(k, 0) + 1
     if not any(not o.ok for o in obs):
-        floor("Cidx", "typed index obligations in the replacement", len(obs), 12)
+        floor("Cidx", "typed index obligations in the replacement", len(obs), 8)
     for need, n in (("extend-map-key", 1), ("extend-map-value", 1), ("set-op", 2), ("delete-index", 1), ("subscript", 4)):
         if kinds.get(need, 0) < n and not any(not o.ok for o in obs):
             raise AnalysisError("C-idx: only %d `%s` obligations typed in the replacement (floor %d): coverage lost" % (kinds.get(need, 0), need, n))
